@@ -36,9 +36,9 @@ CONFIGS = {
     "sse2": ("gcc", REL + " -DBASH_SSE2 -msse2", ""),
     "avx2": ("gcc", REL + " -DBASH_AVX2 -mavx2", ""),
     "avx512": ("gcc", REL + " -DBASH_AVX512 -mavx512f -fno-asynchronous-unwind-tables", ""),
-    "tsan": ("gcc", "-O1 -g -fsanitize=thread -DNDEBUG " + HOOK + " -DBEE2_VERIF_YIELD", "-fsanitize=thread"),
-    "tsandbg": ("gcc", "-O1 -g -fsanitize=thread " + HOOK + " -DBEE2_VERIF_YIELD", "-fsanitize=thread"),
-    "relyield": ("gcc", REL + " -g " + HOOK + " -DBEE2_VERIF_YIELD", ""),
+    "tsan": ("gcc", "-O1 -g -fsanitize=thread -DNDEBUG " + HOOK + " -DBEE2_VERIF_YIELD -DBEE2_VERIF_BLOB_COUNT", "-fsanitize=thread"),
+    "tsandbg": ("gcc", "-O1 -g -fsanitize=thread " + HOOK + " -DBEE2_VERIF_YIELD -DBEE2_VERIF_BLOB_COUNT", "-fsanitize=thread"),
+    "relyield": ("gcc", REL + " -g " + HOOK + " -DBEE2_VERIF_YIELD -DBEE2_VERIF_BLOB_COUNT", ""),
     "msan": ("clang-14", "-O1 -g -fno-omit-frame-pointer -fsanitize=memory -fsanitize-memory-track-origins=2 "
                          + HOOK + " -DBEE2_VERIF_EXACT_BLOB", "-fsanitize=memory"),
     "tracepc": ("gcc", REL + " -fsanitize-coverage=trace-pc", ""),
